@@ -23,10 +23,15 @@ from ..run import hx
 KF_UNALIGNED = "C13.unaligned_chunk_splits_token"
 KF_NUL = "C13.nul_truncates_chunk"
 KF_CR = "C13.reader_drops_lone_cr"
+KF_ICR = "C13.interactive_reader_keeps_cr"
 
 # The entries this check needs in known_findings.json. When the file does not (yet) list them, these texts are
 # used, so that the finding is still reported through the base-class mechanism (see NOTES-C13.md).
 DEFAULT_FINDINGS = [
+    {"property": "C13", "id": "C13.interactive_reader_keeps_cr", "status": "known", "site": "apps/cli_parser.cpp:ReadInput::read (bloc_readstdin branch)",
+     "witness": "printf 'print 1;\\r\\nprint 2;\\r\\n' | bloc -i  (libreadline not loadable)",
+     "what": "the interactive reader bloc_readstdin keeps the CR of CRLF line ends: the byte 13 reaches the scanner as a token and every statement of a "
+             "CRLF text is followed by `Unrecognized statement`, while the LF text runs clean"},
     {"property": "C13", "id": KF_UNALIGNED, "status": "known", "site": "blocc/tokenizer.lex:tokenizer_buf",
      "witness": "text `a = 12345;` served as fragments of 2,3 bytes; any line longer than 1023 bytes",
      "what": "a token that straddles a reader-chunk boundary is split or reinterpreted (`a = 12345;` in fragments "
@@ -465,6 +470,7 @@ class C13(Check):
                     cases.append(Case("c%d" % n, mline, line, {"text": name + "/" + vn, "reader": r, "len": len(t)}))
         cases += self.reader_cases()
         cases += self.path_cases()
+        cases += self.intercr_cases()
         self.stats["cases"] = len(cases)
         self.stats["texts"] = len({c.meta["text"] for c in cases})
         return cases
@@ -554,6 +560,78 @@ class C13(Check):
         self.stats["path_programs"] = len(cases)
         return cases
 
+    INTERCR = ['print 1;\r\nprint 2;\r\n', 'print "a";\r\n', 'x = 3;\r\nprint x;\r\n']
+
+    def intercr_cases(self):
+        """C13R4, finding C13.interactive_reader_keeps_cr: CRLF programs piped into the REAL `bloc -i` whose readline cannot be loaded
+        (a stub libreadline.so.8 without the readline symbols first in LD_LIBRARY_PATH: `ReadInput::read` then serves
+        `bloc_readstdin`). Model = the interactive loop fed with the chunks of `stdinReader` (CR kept); Spec = the LF text."""
+        self.cli_cr = {}
+        stub = os.path.join(self.tmpdir, "norl")
+        os.makedirs(stub, exist_ok=True)
+        r = subprocess.run(["gcc", "-shared", "-o", os.path.join(stub, "libreadline.so.8"), "-x", "c", "/dev/null"], stdout=subprocess.PIPE, stderr=subprocess.STDOUT)
+        try:
+            d = build.impl_build()
+        except build.BuildError:
+            d = None
+        exe = os.path.join(d, "apps", "bloc") if d else ""
+        if r.returncode != 0 or not os.path.exists(exe):
+            self.broken_ties.append("build: cannot exercise the no-readline branch of bloc -i (stub library / executable missing)")
+            return []
+        env = build.sanitizer_env()
+        env["LD_LIBRARY_PATH"] = stub + ":" + os.path.join(d, "blocc")
+        env["TERM"] = "dumb"
+        ans = run.run_driver(["i%d rdp stdin %s" % (i, hx(t)) for i, t in enumerate(self.INTERCR)])
+        cases = []
+        for i, t in enumerate(self.INTERCR):
+            m = re.match(r"^model=([0-9,]+|-)/([0-9a-f]*)", ans.get("i%d" % i, ""))
+            if not m:
+                self.broken_ties.append("driver: no usable answer to rdp stdin for the CRLF text %d" % i)
+                continue
+            cid = "icr%d" % i
+            try:
+                p = subprocess.run([exe, "-i"], input=t.encode("latin-1"), stdout=subprocess.PIPE, stderr=subprocess.PIPE, env=env, timeout=60, cwd=self.tmpdir)
+                self.cli_cr[cid] = (p.returncode, p.stdout)
+            except subprocess.TimeoutExpired:
+                self.cli_cr[cid] = ("timeout", b"")
+            ops = ["new 6 t", "stepf 6 %s %s" % (m.group(2), m.group(1)), "out 6", "new 5 t", "stepf 5 %s sr" % hx(t.replace("\r", "")), "out 5"]
+            cases.append(Case(cid, "rdp stdin %s" % hx(t), "|".join(ops), {"kind": "intercr", "text": "path_intercr", "reader": "bloc -i / bloc_readstdin", "len": len(t)}))
+        return cases
+
+    def judge_intercr(self, c, iraw, m, stderr):
+        d = self.stats.setdefault("families", {})
+        d["path_intercr"] = d.get("path_intercr", 0) + 1
+        parts = iraw.split("|")
+        rc, out = self.cli_cr.get(c.cid, ("missing", b""))
+        if len(parts) != 6 or rc != 0:
+            return self.record_violation("bloc -i (no readline) / harness gave no usable answer: rc=%s" % rc, c, iraw[:600], m, stderr)
+        self.distinct.add((c.model_line,))
+
+        def want(step, outp):
+            lines = bytes.fromhex(outp[4:]).split(b"\n")
+            if lines and lines[-1] == b"":
+                lines.pop()
+            mm = re.match(r"^perr \d+(?: \d+:\d+)?(?: msg=([0-9a-f]*))?$", step)
+            return (lines, bytes.fromhex(mm.group(1) or "") if mm else None)
+        model, spec = want(parts[1], parts[2]), want(parts[4], parts[5])
+        got = self.inter_lines(out)
+        if model not in got:
+            return self.record_violation("`bloc -i` without readline behaves differently from the interactive loop fed with the chunks of the model's "
+                                         "stdinReader (which keeps CR): stdout=%r, model -> %s %s" % (out[-300:], parts[1], parts[2]), c, iraw[:600], m, stderr)
+        if spec in got:
+            a = self.stats.setdefault("agree_spec", {})
+            a["path/" + KF_ICR] = a.get("path/" + KF_ICR, 0) + 1
+            return
+        entry = next((f for f in self.findings if f["id"] == KF_ICR and f.get("status", "known") == "known"), None)
+        if entry is None:
+            return self.record_violation("defect region %s is not a listed known finding" % KF_ICR, c, iraw[:600], m, stderr)
+        dd = self.stats.setdefault("differ_from_spec", {})
+        dd["path/" + KF_ICR] = dd.get("path/" + KF_ICR, 0) + 1
+        cur = self.known_hits.get(KF_ICR)
+        if cur is None or len(c.model_line) < len(cur["example"]):
+            self.known_hits[KF_ICR] = {"what": entry["what"], "example": "printf %r | bloc -i  (bloc_readstdin branch)" % bytes.fromhex(c.model_line.split(" ")[2]).decode("latin-1"),
+                                       "impl": out[out.find(b">>> "):][:160].decode("latin-1").replace("\n", "\\n")}
+
     def run_cli(self, jobs):
         """the REAL executable <impl build>/apps/bloc: `bloc FILE`, `bloc -` (stdin), `bloc -i` (interactive loop)"""
         self.cli = {}
@@ -605,6 +683,8 @@ class C13(Check):
             return self.judge_rdc(c, iraw, m, stderr)
         if kind == "path":
             return self.judge_path(c, iraw, m, stderr)
+        if kind == "intercr":
+            return self.judge_intercr(c, iraw, m, stderr)
         iout = iraw
         mout, spec, kf = m.get("model"), m.get("spec"), m.get("kf")
         fam = re.sub(r"\d+", "", c.meta["text"].split("/")[0]) + "/" + ("aligned" if not kf else kf.split(".")[1])
